@@ -139,7 +139,7 @@ def _lean_R(R):
 
 def run(ctx):
     rng, tier = ctx["rng"], ctx["tier"]
-    n = 90 if tier == "quick" else 1500
+    n = int((90 if tier == "quick" else 1500) * ctx.get("mult", 1))
     hashseeds = [0, 1] if tier == "quick" else [0, 1, 2, 3, 4, 5, 6, 7]
     if ctx.get("replay"):
         cases = [f["case"] for f in ctx["replay"]["failing"] if "case" in f]
